@@ -16,7 +16,7 @@ pub struct Case {
     pub sig_tail: String,
 }
 
-const TIMING_ORACLES: &[&str] = &["destructor_never_ran", "pool_stopped_serving", "capacity_lost", "destructor_count", "drop_blocked_async_thread", "get_hang", "harness"];
+const TIMING_ORACLES: &[&str] = &["destructor_never_ran", "pool_stopped_serving", "capacity_lost", "destructor_count", "drop_blocked_async_thread", "debug_blocked_async_thread", "get_hang", "harness"];
 
 fn run_many(args: &Args, rep: &mut Report, engine: &str, n: u64, jobs: usize, f: impl Fn(u64) -> Case + Send + Sync + 'static) {
     let f = std::sync::Arc::new(f);
@@ -67,8 +67,42 @@ fn run_many(args: &Args, rep: &mut Report, engine: &str, n: u64, jobs: usize, f:
     }
 }
 
+/// Listens to everything (so that every field expression of every event is evaluated) and counts.
+#[cfg(feature = "subscriber")]
+mod listen {
+    use std::sync::atomic::{AtomicU64, Ordering};
+    pub static EVENTS: AtomicU64 = AtomicU64::new(0);
+    pub static SPANS: AtomicU64 = AtomicU64::new(0);
+    pub struct Sub;
+    struct Fields(usize);
+    impl tracing::field::Visit for Fields {
+        fn record_debug(&mut self, _: &tracing::field::Field, v: &dyn std::fmt::Debug) {
+            self.0 += format!("{:?}", v).len();
+        }
+    }
+    impl tracing::Subscriber for Sub {
+        fn enabled(&self, _: &tracing::Metadata<'_>) -> bool {
+            true
+        }
+        fn new_span(&self, _: &tracing::span::Attributes<'_>) -> tracing::span::Id {
+            tracing::span::Id::from_u64(SPANS.fetch_add(1, Ordering::Relaxed) + 1)
+        }
+        fn record(&self, _: &tracing::span::Id, _: &tracing::span::Record<'_>) {}
+        fn record_follows_from(&self, _: &tracing::span::Id, _: &tracing::span::Id) {}
+        fn event(&self, e: &tracing::Event<'_>) {
+            let mut f = Fields(0);
+            e.record(&mut f);
+            let _ = EVENTS.fetch_add(1, Ordering::Relaxed);
+        }
+        fn enter(&self, _: &tracing::span::Id) {}
+        fn exit(&self, _: &tracing::span::Id) {}
+    }
+}
+
 fn main() {
     vh_common::install_panic_hook();
+    #[cfg(feature = "subscriber")]
+    tracing::subscriber::set_global_default(listen::Sub).expect("subscriber");
     let args = Args::parse();
     vh_common::install_hang_watchdog(&args.prop);
     if args.prop == "replay" {
@@ -121,6 +155,11 @@ fn main() {
             // a zero-sized value with a destructor (one at a time: its log is a static)
             run_many(&args, &mut rep, "c14_zst", sc(60.0, 1500.0), 1, move |i| c14::zst_value(seed, i));
             run_many(&args, &mut rep, "c14_drop_race", sc(100.0, 2500.0), (args.jobs / 4).max(1), move |i| c14::drop_race(seed, i));
+            #[cfg(feature = "subscriber")]
+            {
+                rep.engine("c14").add("tracing_events_heard", listen::EVENTS.load(std::sync::atomic::Ordering::Relaxed));
+                rep.engine("c14").add("tracing_spans_heard", listen::SPANS.load(std::sync::atomic::Ordering::Relaxed));
+            }
             std::process::exit(rep.finish(&args));
         }
         "C15" => {
